@@ -16,190 +16,7 @@
 
 static int thorough;
 
-/* ------------------------------------------------------------------ part A */
-typedef struct { int kx; uint16_t suite; int cauth; const char *name; int bogus_psk; } a_cfg_t;
-static const a_cfg_t acfgs[] = {
-    { KX_13_RSA, 0, 0, "tls13-rsa", 0 },
-    { KX_13_PSK, 0, 0, "tls13-psk", 0 },
-    { KX_13_ECDSA, 0, 1, "tls13-ecdsa-clientauth", 0 },
-    { KX_13_RSA, TLS_AES_256_GCM_SHA384, 0, "tls13-rsa-aes256-sha384", 0 },
-    /* certificate handshakes whose ClientHello also carried a pre_shared_key the server could not use */
-    { KX_13_ECDSA, 0, 1, "tls13-ecdsa-clientauth-unknown-psk-offered", 1 },
-    { KX_13_RSA, 0, 0, "tls13-rsa-unknown-psk-offered", 1 },
-};
-#define NACFG ((int) (sizeof(acfgs) / sizeof(acfgs[0])))
-
-enum { D_NONE = 0, D_DELETE, D_DUP, D_SWAP, D_INJECT, D_APPDATA, D_NOFINRECOMP, D_DELETE2, D_CVSCHEME, D_CVSTALE, D_CVFLIP, D_NK };
-static const char *dname[] = { "none", "delete", "duplicate", "swap", "inject", "appdata-under-hs-keys", "delete-without-finished-recompute", "delete-two-consecutive", "certificateverify-scheme-rewritten", "certificateverify-of-another-handshake", "certificateverify-signature-bit-flipped" };
-static const int inj_types[] = { 0, 1, 2, 4, 5, 8, 11, 13, 15, 20, 24, 254 };
-#define NINJ ((int) (sizeof(inj_types) / sizeof(inj_types[0])))
-typedef struct { int kind, i, t; } dev_t2;
-
-typedef struct {
-    world_t w;
-    int ci, victim;
-    tk13_keys_t fk;                 /* flight sender's handshake keys */
-    buf_t tr;                       /* transcript before the flight */
-    unsigned char hs[24000]; int hl;
-    tk_msg_t m[16]; int nm;
-    unsigned char first_units[4][400]; int first_len[4]; int nfirst; /* plaintext units preceding the protected flight (SH, CCS) */
-    dev_t2 d;
-    int hashlen;
-    unsigned char donor_cv[1200]; int donor_cv_len;   /* CertificateVerify of the same flight in ANOTHER handshake (other randoms) */
-    int seed;
-} a_ctx_t;
-
-static int hs_type_name(int t) { return t; }
-
-/* bring the world to the point where the flight to the victim is on the wire, open it */
-static int a_setup(a_ctx_t *g)
-{
-    const a_cfg_t *ac = &acfgs[g->ci];
-    wcfg_t c;
-    unsigned char sec[64], pt[20000];
-    int i, n, sl, it, k, sender = 1 - g->victim;
-    uint16_t suite = ac->suite ? ac->suite : TLS_AES_128_GCM_SHA256;
-    memset(&c, 0, sizeof(c));
-    c.ver = V_TLS13; c.kx = ac->kx; c.suite = ac->suite; c.client_auth = ac->cauth; c.bogus_psk = ac->bogus_psk; c.seed = g->seed;
-    g->hashlen = suite == TLS_AES_256_GCM_SHA384 ? 48 : 32;
-    if (world_init(&g->w, &c) < 0)
-    {
-        return -1;
-    }
-    buf_init(&g->tr);
-    world_collect(&g->w, 0);
-    if (g->w.wire[0].n != 1)
-    {
-        return -2;
-    }
-    buf_add(&g->tr, g->w.wire[0].r[g->w.wire[0].head].p + 5, (size_t) g->w.wire[0].r[g->w.wire[0].head].len - 5);
-    world_deliver(&g->w, 0);      /* CH -> server; server flight now on wire[1] */
-    {
-        /* the server flight always has to be opened: it is part of the transcript for the client flight too */
-        tk13_keys_t sk;
-        unsigned char shs[24000];
-        int shl = 0;
-        tk_msg_t sm[16];
-        int snm;
-        sl = tk_keylog_find("s hs traffic", sec);
-        if (sl != g->hashlen || tk13_keys_from_secret(&sk, suite, sec, g->hashlen) < 0)
-        {
-            return -3;
-        }
-        n = g->w.wire[1].n;
-        g->nfirst = 0;
-        for (i = 0; i < n; i++)
-        {
-            rec_t *r = &g->w.wire[1].r[(g->w.wire[1].head + i) % W_MAXREC];
-            if (r->p[0] == 22)
-            {
-                buf_add(&g->tr, r->p + 5, (size_t) r->len - 5);
-            }
-            if (r->p[0] == 22 || r->p[0] == 20)
-            {
-                if (g->nfirst < 4 && r->len <= 400)
-                {
-                    memcpy(g->first_units[g->nfirst], r->p, (size_t) r->len);
-                    g->first_len[g->nfirst++] = r->len;
-                }
-                continue;
-            }
-            k = tk13_open(&sk, r->p, r->len, pt, &it);
-            if (k < 0 || it != 22)
-            {
-                return -4;
-            }
-            memcpy(shs + shl, pt, (size_t) k);
-            shl += k;
-        }
-        snm = tk_split_msgs(shs, shl, sm, 16);
-        if (snm < 2)
-        {
-            return -5;
-        }
-        if (g->victim == 0)
-        {
-            /* deviate the server flight */
-            memcpy(g->hs, shs, (size_t) shl);
-            g->hl = shl;
-            g->nm = tk_split_msgs(g->hs, g->hl, g->m, 16);
-            g->fk = sk;
-            world_wire_clear(&g->w, 1);
-            return 0;
-        }
-        /* victim = server: deliver the honest server flight, open the client's flight */
-        for (i = 0; i < snm; i++)
-        {
-            buf_add(&g->tr, sm[i].p, (size_t) sm[i].len);
-        }
-        world_pump(&g->w, n);     /* deliver exactly the server flight (n units) */
-    }
-    {
-        tk13_keys_t ck;
-        sl = tk_keylog_find("c hs traffic", sec);
-        if (sl != g->hashlen || tk13_keys_from_secret(&ck, suite, sec, g->hashlen) < 0)
-        {
-            return -6;
-        }
-        n = g->w.wire[0].n;
-        g->hl = 0;
-        g->nfirst = 0;
-        for (i = 0; i < n; i++)
-        {
-            rec_t *r = &g->w.wire[0].r[(g->w.wire[0].head + i) % W_MAXREC];
-            if (r->p[0] == 20)
-            {
-                if (g->nfirst < 4 && r->len <= 400)
-                {
-                    memcpy(g->first_units[g->nfirst], r->p, (size_t) r->len);
-                    g->first_len[g->nfirst++] = r->len;
-                }
-                continue;
-            }
-            k = tk13_open(&ck, r->p, r->len, pt, &it);
-            if (k < 0 || it != 22)
-            {
-                return -7;
-            }
-            memcpy(g->hs + g->hl, pt, (size_t) k);
-            g->hl += k;
-        }
-        g->nm = tk_split_msgs(g->hs, g->hl, g->m, 16);
-        if (g->nm < 1)
-        {
-            return -8;
-        }
-        g->fk = ck;
-        world_wire_clear(&g->w, 0);
-        (void) sender;
-    }
-    return 0;
-}
-
-/* a_setup plus the CertificateVerify of the same flight in another handshake (other entropy seed => other randoms, same keys) */
-static int a_setup_full(a_ctx_t *g)
-{
-    static a_ctx_t dn;
-    int i;
-    memset(&dn, 0, sizeof(dn));
-    dn.ci = g->ci; dn.victim = g->victim; dn.seed = 4242;
-    g->donor_cv_len = 0;
-    if (a_setup(&dn) == 0)
-    {
-        for (i = 0; i < dn.nm; i++)
-        {
-            if (dn.m[i].type == 15 && dn.m[i].len <= (int) sizeof(g->donor_cv))
-            {
-                memcpy(g->donor_cv, dn.m[i].p, (size_t) dn.m[i].len);
-                g->donor_cv_len = dn.m[i].len;
-            }
-        }
-    }
-    world_free(&dn.w);
-    buf_free(&dn.tr);
-    g->seed = 0;
-    return a_setup(g);
-}
+#include "tk_flight.h"
 
 static void a_run_case(void *ctx, mx_result_t *r)
 {
